@@ -3,6 +3,10 @@
 Symbolic: the VALUES assigned by resolvers / sweeps (reals, one integer), Linspace endpoints, point
 values, sweep indices and slice bounds (integers).  Enumerated (finite selectors): expression
 templates, resolver shapes, gate families, container kinds, circuit shapes, sweep trees.
+
+Section (10) `resolve.tagged_once.*`: one-step (non-recursive) resolution of operations with PARAMETERISED TAGS
+(TaggedOperation, Moment, Circuit, FrozenCircuit, CircuitOperation.param_resolver) by resolvers whose values are
+symbols / names / formulas over their own keys; oracle in oracles/param_step.py.
 """
 from __future__ import annotations
 
@@ -16,6 +20,7 @@ from checks.common import BASE_ASSUMPTIONS, CORE_SHIM_MODULES, perturb
 from oracles import embed as EM
 from oracles import gates_doc as D
 from oracles import param_algebra as PA
+from oracles import param_step as PS
 from symx.explore import Obligation
 from symx.run import run_check
 
@@ -121,6 +126,34 @@ class ParamTag:
 
     def __repr__(self):
         return f'ParamTag({self.value!r})'
+
+
+class NamesTag:
+    """a parameterised tag WITHOUT _is_parameterized_: the protocols fall back to its _parameter_names_"""
+
+    def __init__(self, value):
+        self.value = value
+
+    def _parameter_names_(self):
+        import cirq
+
+        return cirq.parameter_names(self.value)
+
+    def _resolve_parameters_(self, resolver, recursive):
+        return NamesTag(resolver.value_of(self.value, recursive))
+
+    def __eq__(self, other):
+        if not isinstance(other, NamesTag):
+            return NotImplemented
+        if isinstance(self.value, sympy.Basic) and isinstance(other.value, sympy.Basic):
+            return self.value == other.value
+        return self.value is other.value
+
+    def __hash__(self):
+        return hash('NamesTag')
+
+    def __repr__(self):
+        return f'NamesTag({self.value!r})'
 
 
 # ---- expression templates (depth <= 3 over Symbol / Add / Mul / integer Pow / numeric constants) ----
@@ -1293,6 +1326,660 @@ def obligations(tier):
             desc='cirq.flatten + ExpressionMap.transform_params / flatten_with_params / flatten_with_sweep / ExpressionMap.transform_sweep on 5 circuit shapes (shared formulas, plain symbols, name collision <a + 1>, two-parameter gates, nothing to flatten): the flattened circuit holds only symbols, and resolved with the transformed SYMBOLIC assignment(s) it has the unitary of the original at the original assignment',
         )
     )
+    obs.extend(tagged_once_obligations(tier))
+    return obs
+
+
+# ================================================================================================
+# (10) operations with PARAMETERISED TAGS under one-step (non-recursive) resolution
+#
+# cirq lets tags take part in the parameter protocols (a sympy expression used as a tag, or a tag object with
+# _is_parameterized_ / _parameter_names_ / _resolve_parameters_).  The resolvers used here assign SYMBOLS / NAMES /
+# FORMULAS OVER KEYS (chains a -> b -> number, swaps a <-> b, cycles), so one resolution step and recursive
+# resolution differ, and the gate and the tags of one operation must be treated with the SAME recursion mode.
+# Oracle: oracles/param_step.py (a walk over the expression tree: simultaneous one-step substitution).
+# Symbolic: the numbers the chain resolvers end in (v1, v2) and the final assignment (va..vd).
+# Enumerated: resolver shape, formula templates, gate kind, tag layout, entry point, container, sub-circuit shape.
+# ================================================================================================
+TG_K = 3  # one-step resolutions applied one after the other
+TG_EX = [a, b, c, -a, 2 * a, a + b, a * b, a - b / 2, a + c, b * c, a * b + c]
+# gate parameters INSIDE circuits take the linear templates only (products of symbolic values in the exponents of several gates of one
+# circuit are not decided by the VC back end); tags - compared as polynomials - and single operations take all templates
+TG_LIN = [a, b, c, -a, 2 * a, a + b, a - b / 2, a + c]
+
+
+def once_resolvers(v1, v2):
+    """resolvers whose VALUES are symbols / names / formulas over their own keys; v1, v2: the numbers chains end in"""
+    return {
+        'chain2': {a: b, b: v1},
+        'swap': {a: b, b: a},
+        'chain3': {a: b, b: c, c: v1},
+        'str': {'a': 'b', 'b': v1, 'c': v2},
+        'formula': {a: b + c, b: d, c: d / 2, d: v1},  # (sums: products of chain values in gate exponents are not decided by the VC back end)
+        'cycle3': {a: b, b: c, c: a},
+        'num_back': {a: v1, b: a, c: v2},
+        'fork': {a: c + d, b: c - d, c: v1, d: v2},
+    }
+
+
+TG_RES = list(once_resolvers(0.5, 0.25))
+
+
+def tg_env(rname):
+    """the structure of a resolver (used to filter menus; never its values)"""
+    return PA.env_of(once_resolvers(0.5, 0.25)[rname])
+
+
+def tg_stages_ok(exprs, stages):
+    """no expression ever mixes an assigned NUMBER with a remaining symbol while the stages are applied (such a value would
+    have to live inside a sympy expression: outside the symbolic fragment).  stages: [(env, 'once' | 'fix')].  Returns
+    None if a recursive stage runs into a cycle, else True / False."""
+    for e in exprs:
+        st = PS.Stepper()
+        cur = e
+        for env, mode in stages:
+            cur = st.step(cur, env) if mode == 'once' else st.fixpoint(cur, env)
+            if cur is None:
+                return None
+            if st.mixed(cur):
+                return False
+    return True
+
+
+def tg_valid(rname, k=TG_K):
+    env = tg_env(rname)
+    return [e for e in TG_EX if tg_stages_ok([e], [(env, 'once')] * k)]
+
+
+def tg_gates():
+    import cirq
+
+    return {
+        'X': (lambda ex, qs: (cirq.X ** ex[0]).on(*qs), lambda v: D.X(v[0])),
+        'Z': (lambda ex, qs: (cirq.Z ** ex[0]).on(*qs), lambda v: D.Z(v[0])),
+        'H': (lambda ex, qs: (cirq.H ** ex[0]).on(*qs), lambda v: D.H(v[0])),
+        'CZ': (lambda ex, qs: (cirq.CZ ** ex[0]).on(*qs), lambda v: D.CZ(v[0])),
+        'Diag1': (lambda ex, qs: cirq.DiagonalGate(list(ex)).on(*qs), lambda v: D.diagonal(list(v))),
+        # a ControlledOperation below the tags; cirq.unitary is in op.qubits order: control first
+        'CtrlX': (lambda ex, qs: (cirq.X ** ex[0]).on(qs[1]).controlled_by(qs[0]), lambda v: D.CX(v[0])),
+    }
+
+
+def tg_tagspecs(te, te2):
+    """tag layouts as (kind, payload) lists.  lit: plain tag (the str 'a' is NOT the symbol a); raw: the sympy expression itself
+    is the tag; PT / NT: tag objects (NT has no _is_parameterized_); '|': TaggedOperation(TaggedOperation(op, inner..), outer..)"""
+    return [
+        [('raw', te)],
+        [('PT', te)],
+        [('lit', 'a'), ('PT', te), ('raw', te2), ('lit', 7)],
+        [('NT', te), ('PT', te2)],
+        [('PT', te), '|', ('raw', te2), ('lit', 'plain')],
+    ]
+
+
+N_TAGSPEC = 5
+
+
+def tg_tag(kind, payload):
+    return ParamTag(payload) if kind == 'PT' else NamesTag(payload) if kind == 'NT' else payload
+
+
+def tg_wrap(op, tagspec):
+    import cirq
+
+    if not tagspec:
+        return op
+    if '|' in tagspec:
+        i = tagspec.index('|')
+        inner = cirq.TaggedOperation(op, *[tg_tag(*t) for t in tagspec[:i]])
+        return cirq.TaggedOperation(inner, *[tg_tag(*t) for t in tagspec[i + 1 :]])
+    return op.with_tags(*[tg_tag(*t) for t in tagspec])
+
+
+def tg_build_op(opd, q):
+    """opd = (gate kind, [expressions], [qubit positions], tag layout)"""
+    g, ex, pos, tagspec = opd
+    return tg_wrap(tg_gates()[g][0](list(ex), [q[p] for p in pos]), tagspec)
+
+
+def tg_exp_slots(opd):
+    _g, ex, _pos, tagspec = opd
+    return [('gate', e) for e in ex] + [t for t in tagspec if t != '|']
+
+
+def tg_act_slots(op):
+    """harness-side walk over a real operation: gate parameters, then the tags (innermost TaggedOperation first)"""
+    import cirq
+
+    layers = []
+    while isinstance(op, cirq.TaggedOperation):
+        layers.insert(0, list(op.tags))
+        op = op.sub_operation
+    return list(gate_exprs(op.gate)) + [t for layer in layers for t in layer]
+
+
+def tg_match(cx, st, actual, exp, Nres, Nenv, label):
+    """one slot of the real object against the oracle expression after the same steps"""
+    import cirq
+
+    no_opaque(actual, label)
+    if st.numeric(exp):
+        isnum = not isinstance(actual, sympy.Basic)
+        cx.check(isnum, label=f'{label}: holds a number')
+        if isnum:
+            cx.close(actual, st.value(exp, {}), label=f'{label}: value')
+        return
+    ok = isinstance(actual, sympy.Basic) and cirq.parameter_names(actual) == st.names(exp)
+    cx.check(ok, label=f'{label}: symbols left')
+    if not ok:
+        return
+    if isinstance(exp, sympy.Symbol):
+        cx.check(actual == exp, label=f'{label}: is exactly the symbol')
+    else:
+        cx.close(Nres.value_of(actual), st.value(exp, Nenv), label=f'{label}: formula, evaluated at symbolic values')
+
+
+def tg_compare(cx, st, acts, exps, Nres, Nenv, label):
+    """all slots; returns the parameter names the oracle expects"""
+    cx.check(len(acts) == len(exps), label=f'{label}: number of gate parameters and tags')
+    names = set()
+    for i, (act, (kind, e)) in enumerate(zip(acts, exps)):
+        lab = f'{label}: slot {i} ({kind})'
+        if kind == 'lit':
+            cx.check(type(act) is type(e) and act == e, label=f'{lab}: plain tag kept')
+            continue
+        if kind in ('PT', 'NT'):
+            okt = type(act) is (ParamTag if kind == 'PT' else NamesTag)
+            cx.check(okt, label=f'{lab}: tag type kept')
+            if not okt:
+                continue
+            act = act.value
+        tg_match(cx, st, act, e, Nres, Nenv, lab)
+        names |= st.names(e)
+    return names
+
+
+def tg_step_slots(st, exps, env, mode='once'):
+    out = []
+    for kind, e in exps:
+        if kind != 'lit':
+            e = st.step(e, env) if mode == 'once' else st.fixpoint(e, env)
+        out.append((kind, e))
+    return out
+
+
+def tg_names_check(cx, obj, names, label):
+    import cirq
+
+    cx.check(set(cirq.parameter_names(obj)) == names, label=f'{label}: parameter_names')
+    cx.check(bool(cirq.is_parameterized(obj)) == bool(names), label=f'{label}: is_parameterized')
+
+
+def tg_entry(kind, Rraw):
+    """the public ways to make ONE resolution step"""
+    import cirq
+
+    if kind == 0:
+        return lambda o: cirq.resolve_parameters_once(o, dict(Rraw))
+    res = cirq.ParamResolver(dict(Rraw))
+    if kind == 2:
+        # recursive queries first: they fill the resolver's cache of FULLY resolved values, which one step must not use
+        for k in ('a', 'b', 'c', 'd'):
+            try:
+                res.value_of(k)
+            except RecursionError:
+                pass
+    if kind == 3:
+        return lambda o: o._resolve_parameters_(res, False)
+    return lambda o: cirq.resolve_parameters(o, res, recursive=False)
+
+
+def tg_unitary_steps(st, opds, exps_per_op, Nenv):
+    G_ = tg_gates()
+    out = []
+    for (g, ex, pos, _t), exps in zip(opds, exps_per_op):
+        vals = [st.value(e, Nenv) for kind, e in exps if kind == 'gate']
+        out.append((G_[g][1](vals), list(pos)))
+    return out
+
+
+def tg_flat_ops(obj):
+    import cirq
+
+    if isinstance(obj, cirq.Operation):
+        return [obj]
+    if isinstance(obj, cirq.Moment):
+        return list(obj.operations)
+    if isinstance(obj, cirq.AbstractCircuit):
+        return list(obj.all_operations())
+    out = []
+    for x in obj:
+        out.extend(tg_flat_ops(x))
+    return out
+
+
+def tagged_once_obligations(tier):
+    import cirq
+
+    quick = tier == 'quick'
+    obs = []
+    OP_GATES = [('X', 1, [0]), ('CZ', 1, [0, 1]), ('Diag1', 2, [0]), ('CtrlX', 1, [0, 1])]
+
+    # ---------------------------------------------------------------------------------------------
+    # (10a) one TaggedOperation
+    # ---------------------------------------------------------------------------------------------
+    def op_combos(rname):
+        nv = len(tg_valid(rname))
+        return [(gi, ei, ti, ek) for gi in range(4) for ei in range(nv) for ti in range(N_TAGSPEC) for ek in range(4)]
+
+    def op_body(cx, rname, wrong=False):
+        v1, v2 = cx.real('v1', -G, G), cx.real('v2', -G, G)
+        Nenv = {n: cx.real('v' + n, -G, G) for n in 'abcd'}
+        Nres = cirq.ParamResolver(dict(Nenv))
+        combos = op_combos(rname)
+        gi, ei, ti, ek = combos[cx.choose('combo', len(combos))]
+        V = tg_valid(rname)
+        Rraw = once_resolvers(v1, v2)[rname]
+        Renv = PA.env_of(Rraw)
+        g, ns, pos = OP_GATES[gi]
+        ge = [V[(ei + 2 * j) % len(V)] for j in range(ns)]
+        te, te2 = V[(ei + 1) % len(V)], V[(ei + 2) % len(V)]
+        opd = (g, ge, pos, tg_tagspecs(te, te2)[ti])
+        q = cirq.LineQubit.range(2)
+        op0 = tg_build_op(opd, q)
+        st = PS.Stepper()
+        exp0 = tg_exp_slots(opd)
+        lab = f'{rname}/{g}/tags{ti}/entry{ek}'
+
+        names = tg_compare(cx, st, tg_act_slots(op0), exp0, Nres, Nenv, f'{lab}: as built')
+        tg_names_check(cx, op0, names, f'{lab}: as built')
+
+        # K single steps, one after the other
+        entry = tg_entry(ek, Rraw)
+        cur, exp = op0, exp0
+        trail = []
+        for k in range(1, TG_K + 1):
+            before = set(cirq.parameter_names(cur))
+            nxt = entry(cur)
+            exp = tg_step_slots(st, exp, Renv)
+            trail.append(exp)
+            cx.check(isinstance(nxt, cirq.TaggedOperation) and nxt.qubits == op0.qubits, label=f'{lab}: step {k}: still a tagged operation on the same qubits')
+            names = tg_compare(cx, st, tg_act_slots(nxt), exp, Nres, Nenv, f'{lab}: step {k}')
+            tg_names_check(cx, nxt, names, f'{lab}: step {k}')
+            cx.check(set(cirq.parameter_names(cur)) == before, label=f'{lab}: step {k}: argument not modified')
+            cur = nxt
+
+        # the resolver composed with itself by ONE-STEP composition, applied once == two single steps
+        R1 = cirq.ParamResolver(dict(Rraw))
+        comp = cirq.resolve_parameters_once(R1, cirq.ParamResolver(dict(Rraw)))
+        via = cirq.resolve_parameters_once(op0, comp)
+        names = tg_compare(cx, st, tg_act_slots(via), trail[1], Nres, Nenv, f'{lab}: once(op, once(R, R))')
+        tg_names_check(cx, via, names, f'{lab}: once(op, once(R, R))')
+
+        # recursive resolution of the same operation: gate and tags to the fixed point, or RecursionError for a cycle
+        rec_ok = tg_stages_ok([e for kind, e in exp0 if kind != 'lit'], [(Renv, 'fix')])
+        if rec_ok is None:
+            cx.check(raises(RecursionError, lambda: cirq.resolve_parameters(op0, dict(Rraw))), label=f'{lab}: cycle -> RecursionError in recursive mode')
+        elif rec_ok:
+            rec = cirq.resolve_parameters(op0, dict(Rraw))
+            fix = tg_step_slots(st, exp0, Renv, 'fix')
+            names = tg_compare(cx, st, tg_act_slots(rec), fix, Nres, Nenv, f'{lab}: recursive')
+            tg_names_check(cx, rec, names, f'{lab}: recursive')
+
+        # finally every remaining symbol gets a (symbolic) number
+        fin = cirq.resolve_parameters(cur, Nres)
+        fexp = [(kind, e if kind == 'lit' else st.value(e, Nenv)) for kind, e in exp]
+        tg_compare(cx, st, tg_act_slots(fin), fexp, Nres, Nenv, f'{lab}: final')
+        tg_names_check(cx, fin, set(), f'{lab}: final')
+        want = tg_unitary_steps(st, [opd], [exp], Nenv)[0][0]
+        if wrong:
+            want = perturb(want)
+        cx.close(cirq.unitary(fin), want, label=f'{lab}: unitary after {TG_K} single steps + final assignment')
+
+    for rname in TG_RES:
+        nc = len(op_combos(rname))
+        obs.append(
+            Obligation(
+                f'resolve.tagged_once.op.{rname}',
+                lambda cx, rname=rname: op_body(cx, rname),
+                twin=lambda cx, rname=rname: op_body(cx, rname, wrong=True),
+                points=[{'choose:combo': i} for i in range(0, nc, max(1, nc // 6))][:6],
+                opts={'weight': 3},
+                desc=f'TaggedOperation with parameterised tags, resolver shape {rname} = {once_resolvers("v1", "v2")[rname]} (v1, v2 SYMBOLIC numbers): {TG_K} single steps '
+                f'(resolve_parameters_once / recursive=False on a shared resolver, also after recursive queries filled its cache / _resolve_parameters_(r, False)) '
+                f'over {len(tg_valid(rname))} formula templates x {N_TAGSPEC} tag layouts (sympy expression as a tag, tag objects with and without _is_parameterized_, plain tags incl. the str "a", nested TaggedOperation) '
+                f'x 4 sub-operations (X, CZ, two-slot DiagonalGate, ControlledOperation) [{nc} combinations, full product]: after EVERY step the gate parameters AND every tag equal the one-step substitution of the oracle '
+                'walk (exact symbols, formulas compared at SYMBOLIC values), parameter_names / is_parameterized agree, the argument is unchanged; once(op, once(R, R)) == two steps; recursive mode reaches the fixed point or raises RecursionError for cycles; '
+                'after a final SYMBOLIC assignment all tags are the expected numbers and cirq.unitary is the documented matrix',
+            )
+        )
+
+    # ---------------------------------------------------------------------------------------------
+    # (10b) Moment / Circuit / FrozenCircuit / op sequences holding such operations, circuit-level tags
+    # ---------------------------------------------------------------------------------------------
+    LEVELS = ['moment', 'circuit', 'frozen', 'sequence', 'tags_only', 'moment_tag_only']
+
+    def cont_spec(level, e0, e1, e2):
+        opA = ('X', [e0], [0], [('PT', e1), ('raw', e2)])
+        opB = ('Z', [e1], [1], [])
+        opC = ('X', [0.5], [2], [('lit', 'a'), ('NT', e2)])  # ONLY the tag is parameterised
+        opD = ('H', [1.0], [1], [])
+        ctags = [('PT', e0), ('lit', 'plain'), ('raw', e1)]
+        if level == 'moment':
+            return [[opA, opB, opC]], []
+        if level in ('circuit', 'frozen'):
+            return [[opA, opB], [opD], [opC]], ctags
+        if level == 'sequence':
+            return [[opA], [opB, opC]], []
+        if level == 'tags_only':
+            return [[opD], [opC]], ctags
+        return [[opC, opD]], []
+
+    def cont_build(level, groups, ctags, q):
+        built = [[tg_build_op(o, q) for o in grp] for grp in groups]
+        if level in ('moment', 'moment_tag_only'):
+            return cirq.Moment(built[0])
+        if level == 'sequence':
+            return (built[0][0], list(built[1]))
+        circ = cirq.Circuit([cirq.Moment(grp) for grp in built], tags=[tg_tag(*t) for t in ctags])
+        return circ.freeze() if level == 'frozen' else circ
+
+    def cont_acts(obj):
+        acts = [tg_act_slots(o) for o in tg_flat_ops(obj)]
+        ctags = list(obj.tags) if isinstance(obj, cirq.AbstractCircuit) else []
+        return acts, ctags
+
+    def cont_compare(cx, st, obj, exps_ops, exps_tags, Nres, Nenv, lab):
+        acts, ctags = cont_acts(obj)
+        cx.check(len(acts) == len(exps_ops), label=f'{lab}: number of operations')
+        names = set()
+        for i, (a_, e_) in enumerate(zip(acts, exps_ops)):
+            names |= tg_compare(cx, st, a_, e_, Nres, Nenv, f'{lab}: op {i}')
+        names |= tg_compare(cx, st, ctags, exps_tags, Nres, Nenv, f'{lab}: circuit tags')
+        if isinstance(obj, (tuple, list)):
+            cx.check(set(cirq.parameter_names(obj)) == names and bool(cirq.is_parameterized(obj)) == bool(names), label=f'{lab}: names of the sequence')
+        else:
+            tg_names_check(cx, obj, names, lab)
+
+    def cont_shape_ok(obj0, obj, lab, cx):
+        if isinstance(obj0, cirq.Moment):
+            cx.check(isinstance(obj, cirq.Moment) and obj.qubits == obj0.qubits, label=f'{lab}: a Moment on the same qubits')
+        elif isinstance(obj0, cirq.AbstractCircuit):
+            cx.check(type(obj) is type(obj0) and len(obj) == len(obj0), label=f'{lab}: circuit type and length kept')
+            for m0, m1 in zip(obj0.moments, obj.moments):
+                if not cirq.is_parameterized(m0):
+                    cx.check(m1 is m0, label=f'{lab}: moment without parameters is the same object')
+        else:
+            cx.check(isinstance(obj, tuple) and isinstance(obj[1], list), label=f'{lab}: sequence types kept')
+
+    def cont_triples(rname):
+        V = tg_valid(rname)
+        L = [e for e in TG_LIN if e in V]  # gate slots (e0, e1)
+        T = [e for e in V if e not in TG_LIN] + L  # e2 sits in tags only: non-linear templates first
+        tr = [(L[i], L[(i + 1) % len(L)], T[i % len(T)]) for i in range(len(L))]
+        return tr
+
+    def cont_combos(rname):
+        nt = len(cont_triples(rname))
+        return [(li, xi, ek) for li in range(len(LEVELS)) for xi in range(nt) for ek in range(3)]
+
+    def cont_body(cx, rname, wrong=False):
+        v1, v2 = cx.real('v1', -G, G), cx.real('v2', -G, G)
+        Nenv = {n: cx.real('v' + n, -G, G) for n in 'abcd'}
+        Nres = cirq.ParamResolver(dict(Nenv))
+        triples = cont_triples(rname)
+        combos = cont_combos(rname)
+        li, xi, ek = combos[cx.choose('combo', len(combos))]  # (_resolve_parameters_ is not defined for plain sequences: entries 0..2)
+        level = LEVELS[li]
+        Rraw = once_resolvers(v1, v2)[rname]
+        Renv = PA.env_of(Rraw)
+        groups, ctags = cont_spec(level, *triples[xi])
+        q = cirq.LineQubit.range(3)
+        obj0 = cont_build(level, groups, ctags, q)
+        opds = [o for grp in groups for o in grp]
+        st = PS.Stepper()
+        exps = [tg_exp_slots(o) for o in opds]
+        etags = list(ctags)
+        lab = f'{rname}/{level}/exprs{xi}/entry{ek}'
+        cont_compare(cx, st, obj0, exps, etags, Nres, Nenv, f'{lab}: as built')
+
+        # a resolver about other symbols changes nothing (one-step mode)
+        same = cirq.resolve_parameters_once(obj0, {'zz': v1, 'yy': a})
+        if isinstance(obj0, cirq.Moment) and all(isinstance(e, sympy.Symbol) for e in triples[xi]):
+            # (formulas may be rebuilt by value_of, e.g. -a -> -1.0*a: identity is expected for plain symbols only)
+            cx.check(same is obj0, label=f'{lab}: unrelated resolver: same Moment object')
+        cont_compare(cx, st, same, exps, etags, Nres, Nenv, f'{lab}: unrelated resolver')
+
+        entry = tg_entry(ek, Rraw)
+        cur = obj0
+        for k in range(1, TG_K + 1):
+            before = set(cirq.parameter_names(cur))
+            nxt = entry(cur)
+            exps = [tg_step_slots(st, e, Renv) for e in exps]
+            etags = tg_step_slots(st, etags, Renv)
+            cont_shape_ok(cur, nxt, f'{lab}: step {k}', cx)
+            cont_compare(cx, st, nxt, exps, etags, Nres, Nenv, f'{lab}: step {k}')
+            cx.check(set(cirq.parameter_names(cur)) == before, label=f'{lab}: step {k}: argument not modified')
+            cur = nxt
+
+        all0 = [e for es in [tg_exp_slots(o) for o in opds] + [list(ctags)] for kind, e in es if kind != 'lit']
+        rec_ok = tg_stages_ok(all0, [(Renv, 'fix')])
+        if rec_ok is None:
+            cx.check(raises(RecursionError, lambda: cirq.resolve_parameters(obj0, dict(Rraw))), label=f'{lab}: cycle -> RecursionError in recursive mode')
+        elif rec_ok:
+            st2 = PS.Stepper()
+            rec = cirq.resolve_parameters(obj0, dict(Rraw))
+            cont_compare(cx, st2, rec, [tg_step_slots(st2, tg_exp_slots(o), Renv, 'fix') for o in opds], tg_step_slots(st2, list(ctags), Renv, 'fix'), Nres, Nenv, f'{lab}: recursive')
+
+        fin = cirq.resolve_parameters(cur, Nres)
+        val = lambda es: [(kind, e if kind == 'lit' else st.value(e, Nenv)) for kind, e in es]  # noqa: E731
+        cont_compare(cx, st, fin, [val(e) for e in exps], val(etags), Nres, Nenv, f'{lab}: final')
+        steps = tg_unitary_steps(st, opds, exps, Nenv)
+        if wrong:
+            steps = wrong_last(steps)
+        circ = fin if isinstance(fin, cirq.AbstractCircuit) else cirq.Circuit(tg_flat_ops(fin))
+        cx.close(circ.unitary(qubit_order=q, qubits_that_should_be_present=q), oracle_unitary(steps, 3), label=f'{lab}: unitary after {TG_K} single steps + final assignment')
+
+    for rname in TG_RES:
+        nt = len(cont_triples(rname))
+        ncc = len(cont_combos(rname))
+        obs.append(
+            Obligation(
+                f'resolve.tagged_once.containers.{rname}',
+                lambda cx, rname=rname: cont_body(cx, rname),
+                twin=lambda cx, rname=rname: cont_body(cx, rname, wrong=True),
+                points=[{'choose:combo': i} for i in range(0, ncc, max(1, ncc // 6))][:6],
+                opts={'weight': 4},
+                desc=f'Moment / Circuit / FrozenCircuit (with parameterised CIRCUIT tags) / (op, [op, op]) sequences / circuits and moments whose ONLY parameters sit in tags, resolver shape {rname}, {nt} formula triples (gate slots: linear templates, tags: all templates), 3 entry points [{ncc} combinations]: '
+                f'{TG_K} single steps at the container level; after every step each operation (gate AND tags) and each circuit tag equals the one-step substitution, names agree, container type / length / qubits kept, unparameterised moments stay the same object, '
+                'a change that is in a tag only is not lost; unrelated resolver changes nothing; recursive mode = fixed point or RecursionError; final SYMBOLIC assignment -> unitary == product of documented matrices, tags == expected numbers',
+            )
+        )
+
+    # ---------------------------------------------------------------------------------------------
+    # (10c) CircuitOperation whose param_resolver (always ONE step) acts on tagged parameterised operations
+    # ---------------------------------------------------------------------------------------------
+    COP_SHAPES = ['one_qubit', 'two_qubit', 'tags_only', 'tagged_cop', 'nested', 'repeated', 'circuit_tags']
+    OUTERS = ['numeric', 'once_chain', 'once_swap_twice', 'rec_chain', 'rec_chain_num', 'with_params', 'with_params_rec', 'rec_loop']
+    OWN2 = {'a': b, 'b': a}  # param_resolver of the OUTER sub-circuit in the nested shape
+
+    def cop_spec(shape, e0, e1, e2):
+        """-> (inner op descriptions, outer op descriptions, tags on the CircuitOperation itself, circuit tags, repetitions, #qubits)"""
+        A1 = ('X', [e0], [0], [('PT', e1), ('raw', e2)])
+        A2 = ('X', [e0], [0], [('PT', e1)])
+        Bz = ('CZ', [e1], [0, 1], [('raw', e2), ('lit', 'a')])
+        if shape == 'one_qubit':
+            return [A1], [], [], [], 1, 1
+        if shape == 'two_qubit':
+            return [A2, Bz], [], [], [], 1, 2
+        if shape == 'tags_only':
+            return [('X', [0.5], [0], [('NT', e0)]), ('CZ', [1.0], [0, 1], [('raw', e1)])], [], [], [], 1, 2
+        if shape == 'tagged_cop':
+            return [A2, Bz], [], [('PT', e2), ('lit', 'plain'), ('raw', e0)], [], 1, 2
+        if shape == 'nested':
+            return [A2], [('Z', [e1], [0], [('NT', e0)])], [], [], 1, 1
+        if shape == 'repeated':
+            # (two qubits: the single-qubit _unitary_ short cut uses numpy.linalg.matrix_power, which cannot carry solver values)
+            return [A2, Bz], [], [], [], 2, 2
+        return [A2, Bz], [], [], [('PT', e2)], 1, 2
+
+    def cop_outer_stages(outer, v1):
+        """what is applied from outside: [(raw resolver, 'once' | 'fix', how)]"""
+        chain = {a: b, b: v1}
+        swap = {a: b, b: a}
+        symchain = {a: b, b: c}
+        return {
+            'numeric': [],
+            'once_chain': [(chain, 'once', 'once')],
+            'once_swap_twice': [(swap, 'once', 'once'), (swap, 'once', 'kw')],
+            'rec_chain': [(symchain, 'fix', 'rec')],
+            'rec_chain_num': [(chain, 'fix', 'rec')],
+            'with_params': [(swap, 'once', 'with_params')],
+            'with_params_rec': [(symchain, 'fix', 'with_params_rec')],
+            'rec_loop': [(swap, 'fix', 'rec')],
+        }[outer]
+
+    def cop_all_stage_envs(shape, own, outer):
+        ownenv = tg_env(own)
+        inner = [(ownenv, 'once')] + ([(OWN2, 'once')] if shape == 'nested' else [])
+        outerst = [(PA.env_of(r), m) for r, m, _h in cop_outer_stages(outer, 0.5)]
+        return inner, outerst
+
+    def cop_triples(shape, own, outer):
+        """formula triples for which no slot mixes numbers and symbols on the way (structure only)"""
+        inner, outerst = cop_all_stage_envs(shape, own, outer)
+        n, nl = len(TG_EX), len(TG_LIN)
+        out = []
+        for i in range(n):
+            tr = (TG_LIN[i % nl], TG_LIN[(i + 1) % nl], TG_EX[(2 * i + 6) % n])  # e2 sits in tags only
+            pre_out = [(OWN2, 'once')] if shape == 'nested' else []
+            if outer == 'rec_loop':
+                # only the stages before the recursive one matter: the body expects RecursionError exactly when a or b is still named
+                if tg_stages_ok(tr, inner) and tg_stages_ok(tr, pre_out):
+                    out.append(tr)
+            elif tg_stages_ok(tr, inner + outerst) and tg_stages_ok(tr, pre_out + outerst):
+                out.append(tr)
+        return out
+
+    def cop_combos(own):
+        out = []
+        for si, shape in enumerate(COP_SHAPES):
+            for oi, outer in enumerate(OUTERS):
+                nt = len(cop_triples(shape, own, outer))
+                for xi in ([(si + oi + j) % nt for j in range(min(3, nt))] if quick else range(nt)):
+                    out.append((si, oi, xi))
+        return out
+
+    def cop_slots(obj):
+        """real object -> slots: tags on the CircuitOperation itself, then every operation of mapped_circuit(deep=True)"""
+        outer_tags = []
+        if isinstance(obj, cirq.TaggedOperation):
+            outer_tags = list(obj.tags)
+            obj = obj.sub_operation
+        mc = obj.mapped_circuit(deep=True)
+        return outer_tags, [tg_act_slots(o) for o in mc.all_operations()], obj
+
+    def cop_body(cx, own, wrong=False):
+        v1, v2 = cx.real('v1', -G, G), cx.real('v2', -G, G)
+        Nenv = {n: cx.real('v' + n, -G, G) for n in 'abcd'}
+        Nres = cirq.ParamResolver(dict(Nenv))
+        combos = cop_combos(own)
+        si, oi, xi = combos[cx.choose('combo', len(combos))]
+        shape, outer = COP_SHAPES[si], OUTERS[oi]
+        tr = cop_triples(shape, own, outer)[xi]
+        ownraw = once_resolvers(v1, v2)[own]
+        ownenv = PA.env_of(ownraw)
+        inner_ops, outer_ops, self_tags, circ_tags, reps, nq = cop_spec(shape, *tr)
+        q = cirq.LineQubit.range(2)
+        lab = f'{own}/{shape}/{outer}/exprs{xi}'
+        st = PS.Stepper()
+
+        sub = cirq.FrozenCircuit([tg_build_op(o, q) for o in inner_ops], tags=[tg_tag(*t) for t in circ_tags])
+        cop = cirq.CircuitOperation(sub, param_resolver=dict(ownraw), repetitions=reps)
+        if shape == 'nested':
+            cop = cirq.CircuitOperation(cirq.FrozenCircuit(cop, *[tg_build_op(o, q) for o in outer_ops]), param_resolver={a: b, b: a})
+        obj = tg_wrap(cop, self_tags)
+
+        # the slots as they are seen from OUTSIDE: the sub-circuit's own map makes ONE step (a <-> b exchanges, a -> b -> number stops at b)
+        e_in = [tg_step_slots(st, tg_exp_slots(o), ownenv) for o in inner_ops]
+        e_ct = tg_step_slots(st, list(circ_tags), ownenv)
+        e_out = [tg_exp_slots(o) for o in outer_ops]
+        if shape == 'nested':
+            e_in = [tg_step_slots(st, e, OWN2) for e in e_in]
+            e_out = [tg_step_slots(st, e, OWN2) for e in e_out]
+        e_self = list(self_tags)
+        opds = (inner_ops + outer_ops) * reps
+
+        def compare(o, what):
+            stags, acts, base = cop_slots(o)
+            exps = (e_in + e_out) * reps
+            cx.check(len(acts) == len(exps), label=f'{lab}: {what}: operations of the mapped circuit')
+            names = tg_compare(cx, st, stags, e_self, Nres, Nenv, f'{lab}: {what}: tags of the CircuitOperation')
+            for i, (a_, e_) in enumerate(zip(acts, exps)):
+                names |= tg_compare(cx, st, a_, e_, Nres, Nenv, f'{lab}: {what}: mapped op {i}')
+            for kind, e in e_ct:
+                names |= st.names(e)
+            tg_names_check(cx, o, names, f'{lab}: {what}')
+            return names
+
+        names0 = compare(obj, 'as built')
+
+        cur = obj
+        for raw, mode, how in cop_outer_stages(outer, v1):
+            env = PA.env_of(raw)
+            before = set(cirq.parameter_names(cur))
+            if outer == 'rec_loop':
+                hit = bool(names0 & {'a', 'b'})
+                cx.check(raises(RecursionError, lambda: cirq.resolve_parameters(cur, dict(raw))) == hit, label=f'{lab}: recursive resolution by a cycle raises exactly when the mapped sub-circuit still names a or b')
+                break
+            if how == 'once':
+                nxt = cirq.resolve_parameters_once(cur, dict(raw))
+            elif how == 'kw':
+                nxt = cirq.resolve_parameters(cur, cirq.ParamResolver(dict(raw)), recursive=False)
+            elif how == 'rec':
+                nxt = cirq.resolve_parameters(cur, dict(raw))
+            else:
+                # with_params is a method of the CircuitOperation: tags on the operation itself are not touched
+                base = cur.sub_operation if isinstance(cur, cirq.TaggedOperation) else cur
+                nxt = tg_wrap(base.with_params(dict(raw), recursive=(how == 'with_params_rec')), [])
+                if isinstance(cur, cirq.TaggedOperation):
+                    nxt = nxt.with_tags(*cur.tags)
+            e_in = [tg_step_slots(st, e, env, mode) for e in e_in]
+            e_out = [tg_step_slots(st, e, env, mode) for e in e_out]
+            e_ct = tg_step_slots(st, e_ct, env, mode)
+            if how not in ('with_params', 'with_params_rec'):
+                e_self = tg_step_slots(st, e_self, env, mode)
+            compare(nxt, f'after {how}')
+            cx.check(set(cirq.parameter_names(cur)) == before, label=f'{lab}: argument not modified')
+            cur = nxt
+
+        fin = cirq.resolve_parameters(cur, Nres)
+        val = lambda es: [(kind, e if kind == 'lit' else st.value(e, Nenv)) for kind, e in es]  # noqa: E731
+        e_in, e_out, e_self, e_ct = [val(e) for e in e_in], [val(e) for e in e_out], val(e_self), val(e_ct)
+        compare(fin, 'final')
+        steps = tg_unitary_steps(st, opds, (e_in + e_out) * reps, Nenv)
+        if wrong:
+            steps = wrong_last(steps)
+        want = oracle_unitary(steps, nq)
+        if nq == 1:
+            cx.close(cirq.unitary(fin), want, label=f'{lab}: cirq.unitary(resolved sub-circuit operation)')
+        cx.close(cirq.Circuit(fin).unitary(qubit_order=q[:nq], qubits_that_should_be_present=q[:nq]), want, label=f'{lab}: unitary of a circuit holding the resolved operation')
+
+    for own in ['swap', 'chain2', 'cycle3', 'formula', 'num_back']:
+        nc = len(cop_combos(own))
+        obs.append(
+            Obligation(
+                f'resolve.tagged_once.circuit_op.{own}',
+                lambda cx, own=own: cop_body(cx, own),
+                twin=lambda cx, own=own: cop_body(cx, own, wrong=True),
+                points=[{'choose:combo': i} for i in range(0, nc, max(1, nc // 8))][:8],
+                opts={'weight': 5},
+                desc=f'CircuitOperation(param_resolver = {once_resolvers("v1", "v2")[own]}) over tagged parameterised operations: {len(COP_SHAPES)} shapes (1 / 2 qubits, parameters ONLY in tags, tags on the CircuitOperation itself, nested sub-circuits '
+                f'with two maps, repetitions=2, parameterised circuit tags) x {len(OUTERS)} outer actions (final assignment only, resolve_parameters_once by a chain, a swap twice, recursive resolution by symbol chains / number chains / a cycle, with_params one-step and recursive) '
+                f'x {'<= 3 formula triples (rotated)' if quick else 'all admissible formula triples'} [{nc} combinations]: parameter_names / is_parameterized and every gate parameter and tag of mapped_circuit(deep=True) equal own map as ONE step, then the outer action (its own recursion mode) by the oracle walk; '
+                'RecursionError exactly for cycles; final SYMBOLIC assignment -> tags == expected numbers, unitary == product of documented matrices',
+            )
+        )
     return obs
 
 
@@ -1334,7 +2021,12 @@ LEVEL = (
     'simulate_sweep with its unparameterised-prefix reuse, the Sweep classes and cirq.flatten; z3 decides agreement with ordinary algebra on the '
     'expression tree, with documented gate matrices at the substituted values and with sweeps written out as Python lists, for ALL values in the '
     'boxes. Expression templates, resolver shapes, gate families, container kinds, circuit shapes, edits and sweep trees are finite menus that '
-    'are exhausted (solver-driven bounded exploration); integer indices are partitioned by the solver along the real range tests and then per value.'
+    'are exhausted (solver-driven bounded exploration); integer indices are partitioned by the solver along the real range tests and then per value. '
+    'One-step (non-recursive) resolution - resolve_parameters_once, recursive=False, CircuitOperation.param_resolver / with_params - of operations whose '
+    'TAGS are parameterised (sympy expressions used as tags, tag objects in the parameter protocols) is executed with resolvers whose values are symbols / '
+    'names / formulas over their own keys (chains ending in SYMBOLIC numbers, swaps, cycles) at the TaggedOperation, Moment, Circuit, FrozenCircuit and '
+    'CircuitOperation level: after every step the gate parameters and every tag are compared with a one-step substitution walk over the expression tree '
+    '(oracles/param_step.py), formulas as polynomials in symbolic values.'
 )
 
 
@@ -1347,15 +2039,31 @@ def main(tier, seed=0, replay=None, only=None, procs=None):
         'expression_depth': '<= 3 over Symbol, Add, Mul, Pow with constant integer power (incl. -1), Integer / Rational / Float / pi constants',
         'resolver_chains': '<= 3 links, str and Symbol keys / values',
         'gate_families': list(families()),
-        'containers': '18 kinds: tagged (plain and parameterised tag), controlled op (control value 1 and 0), Moment, Circuit, FrozenCircuit, CircuitOperation (param_resolver incl. a<->b swap, repetitions=2, qubit_map, nested), circuit tags, op sequences, resolve_parameters_once, unrelated / partial resolvers; <= 2 qubits, <= 4 moments',
+        'containers': '18 kinds (recursive mode; one-step mode with parameterised tags: see tagged_one_step): tagged (plain and parameterised tag), controlled op (control value 1 and 0), Moment, Circuit, FrozenCircuit, CircuitOperation (param_resolver incl. a<->b swap, repetitions=2, qubit_map, nested), circuit tags, op sequences, resolve_parameters_once, unrelated / partial resolvers; <= 2 qubits, <= 4 moments',
         'gate_transformations': 'decompose_once / inverse / square / controlled_by before resolution, 5 linear formula templates per family',
         'transformers': 'expand_composite, align_left, eject_z, eject_phased_paulis (both with eject_parameterized=True, compared up to global phase), drop_empty_moments, full decompose on 2 circuits of 2 qubits',
         'edits': '22 single edits after filling the caches, 2 base circuits',
         'simulate_sweep': '6 circuit shapes on 2-3 qubits, 2 assignments, Simulator / DensityMatrixSimulator, split on/off, basis or symbolic initial state',
         'sweep_trees': 'depth <= 2, factor lengths <= 4, 29 shapes (15 for indexing, 4 for slicing in the quick tier)',
         'slice_box': 'start/stop in [-5,5] quick / [-8,8] thorough, step in [-3,3] without 0',
+        'tagged_one_step': {
+            'symbolic': 'the numbers the chain resolvers end in (v1, v2) and the final assignment (va..vd), all in gate_value_box',
+            'resolver_shapes': {k: str(v) for k, v in once_resolvers('v1', 'v2').items()},
+            'formula_templates': [str(e) for e in TG_EX],
+            'formula_templates_for_gates_inside_circuits': [str(e) for e in TG_LIN],
+            'steps': f'{TG_K} single steps, then a final numeric assignment; recursive mode on the same object (fixed point or RecursionError)',
+            'tag_layouts': 'sympy expression as tag / ParamTag / NamesTag (no _is_parameterized_) / plain tags (str "a", int) mixed in / nested TaggedOperation; <= 4 tags',
+            'sub_operations': 'X, CZ, DiagonalGate (2 slots), ControlledOperation; inside circuits X, Z, CZ, H',
+            'entry_points': 'resolve_parameters_once(dict), resolve_parameters(recursive=False) on a shared ParamResolver (fresh / after recursive queries filled its cache), _resolve_parameters_(r, False), once(op, once(R, R))',
+            'containers': 'Moment, Circuit and FrozenCircuit with parameterised circuit tags, (op, [op, op]) sequence, circuits / moments whose only parameters are in tags; 3 qubits, <= 3 moments',
+            'circuit_operation': '7 shapes (1-2 qubits, tags only, tags on the CircuitOperation, nested with two maps, repetitions=2, circuit tags) x 8 outer actions x 5 own maps; quick: <= 3 formula triples per cell',
+            'filter': 'menu entries in which an intermediate result would mix an assigned NUMBER with a remaining symbol inside one formula (b + 0.25) are dropped by the STRUCTURE of resolver and formula (sympy cannot carry solver values); '
+            'recursive-mode comparison is skipped (not the one-step part) where only the recursive result mixes',
+        },
         'tolerance': 1e-7,
         'outside': [
+            'one-step resolution results that mix an assigned number and a remaining symbol in ONE formula (a + c under {a: b, c: 0.25}); tags whose _resolve_parameters_ has no `recursive` argument; identity (`is`) of tag objects after resolution; '
+            'products of chain values in gate exponents inside circuits (linear templates there); parameterised tags on Moments (Cirq does not resolve them: no protocol support)',
             'the sympy.subs path of value_of whenever it would have to carry a value: functions (sin, exp, ...), non-polynomial formulas, symbolic exponents of Pow, partially resolved formulas that mix an assigned symbolic number with an unassigned symbol',
             'complex assigned values',
             'radian-parameterised rotations (rx, ry, Rz, cphase, givens, ms) inside circuits / simulations: checked at gate level (cirq.unitary) only, because the exponent == special-value tests of their in-place kernels on rad-unit angles are not decided by the VC back end',
